@@ -23,7 +23,24 @@ from .tlc import fn_to_dict
 
 STYLE = Style(const_prefix="math.")      # Const("pi") -> math.pi
 HELPERS = {"hlp": {"params": ["a", "b"], "body": [{"k": "ret", "e": {"k": "sub", "a": {"k": "var", "name": "a"},
-                                                                    "b": {"k": "var", "name": "b"}}}]}}
+                                                                    "b": {"k": "var", "name": "b"}}}]},
+           # a USER function that merely has the name of a mathematical one (SbmlRoundTrip.tla: floor(a) = a + 1)
+           "floor": {"params": ["a"], "body": [{"k": "ret", "e": {"k": "add", "a": {"k": "var", "name": "a"},
+                                                                  "b": {"k": "num", "v": {"n": 1, "d": 1}}}}]}}
+# module-level constants of the rendered modules (SbmlRoundTrip.tla FT: K = 3, BIG = 10^10 as an INTEGER literal)
+MODULE_CONSTANTS = "\nK = 3.0\nBIG = 10000000000\n"
+_MODULE_CONST_NAMES = ("K", "BIG")
+
+
+def _bare_constants(x):
+    """Const("K") / Const("BIG") are module-level names, not math.<name>: render them as bare names"""
+    if isinstance(x, dict):
+        if x.get("k") == "const" and x.get("name") in _MODULE_CONST_NAMES:
+            return {"k": "var", "name": x["name"]}
+        return {k: _bare_constants(v) for k, v in x.items()}
+    if isinstance(x, list):
+        return [_bare_constants(v) for v in x]
+    return x
 
 
 def isolate_home(work: Path) -> Path:
@@ -104,7 +121,7 @@ def functions_of(c: dict) -> tuple[dict, dict]:
         key = json.dumps([list(f["params"]), body], sort_keys=True)
         if key not in by_record:
             by_record[key] = tag
-            fns[tag] = {"params": list(f["params"]), "body": body}
+            fns[tag] = {"params": list(f["params"]), "body": _bare_constants(body)}
         site[where] = by_record[key]
 
     for j, (n, v) in enumerate(c["init"].items()):
@@ -157,7 +174,7 @@ def build_model(c: dict, moddir: Path, modname: str):
     from mxlpy.types import Derived, InitialAssignment
 
     fns, site = functions_of(c)
-    src = render.module_src({**HELPERS, **fns}, style=STYLE)
+    src = render.module_src({**HELPERS, **fns}, style=STYLE) + MODULE_CONSTANTS
     render.write_module(moddir, modname, src)
     mod = render.load_module(moddir, modname)
     fn = lambda *w: getattr(mod, site[w])  # noqa: E731
